@@ -1,15 +1,18 @@
 (* C03 -- memory safety and totality of the codec: the executable side.
 
    The instrumented codec itself is coq/Codec (extract_element & co. take the capacities of the
-   caller's buffers and return XOOB, the decoders return OOB / Diverge / Fuel).  This file adds
-   what C03 needs on top of it, no proofs:
+   caller's buffers, the decoders return Ok / Exc / OOB site / Diverge / Fuel).  Since /repo d48d8ce
+   extract_element fails instead of writing past its buffers and since a0d41df decode_group leaves
+   its loop on an empty element; the pre-repair functions are kept in coq/Codec as *_orig.
+   This file adds what C03 needs on top of the codec model, no proofs:
 
-     run_ok, tok_bounded, hdr_bounded, tokens_bounded   the boolean hypothesis of the safety theorem
-     gm_ok, part_ok, c03_wf                             the schema conditions (checked on the dumped
-                                                        metadata by the driver at every run)
-     atoi_ub, msg_ub                                    the standing UB of fast_atoi<int> (F09), as a
-                                                        predicate on the texts the decoder converts
-     dec_class / enc_class                              the class of a run in the vocabulary of the tie
+     is_bytes, digit_runs_ok            hypotheses on the input
+     gm_ok, part_ok, c03_wf, c03_nodata the schema conditions (checked on the dumped metadata by the
+                                        driver at every run)
+     classified, safe                   the result classes the theorems speak about
+     atoi_ub, dt_ub, msg_ub ...         standing UB sites (F09, date/time parsers) as predicates on the
+                                        texts the decoder converts
+     dec_class / enc_class              the class of a run in the vocabulary of the tie
 
    Capacities (verified against the pinned source):
      extract_header   char tag[MAX_MSGTYPE_FIELD_LEN = 32], val[FIX8_MAX_FLD_LENGTH = 2048]  message.cpp:58
@@ -22,96 +25,42 @@ From F8 Require Import Codec.Bytes Codec.Meta Codec.Extract Codec.Decode Codec.E
 Import ListNotations.
 Local Open Scope N_scope.
 
-(* ------------------------------------------------------------------ bounded token streams *)
+(* ------------------------------------------------------------------ inputs *)
+(* a string of bytes *)
+Definition is_bytes (l : list N) : bool := forallb (fun b => b <? 256) l.
 
-(* Position independent bound: MessageBase::decode may restart tokenising anywhere (after a
-   fixed-width data field), so the tag and the value seen from ANY offset have to fit:
-     - every run of digits is shorter than tcap (a tag read from any offset is a suffix of one),
-     - from every '=' fewer than vcap bytes follow before the next SOH / the end (a value read
-       from any offset starts after some '=' of its SOH-free segment; the first one is the worst).
-   dk = length of the digit run ending here, vk = bytes since the first '=' of the segment. *)
-Fixpoint run_ok (tcap vcap dk : N) (vk : option N) (l : list N) : bool :=
+(* every run of digits is shorter than cap (dk = length of the run ending here).  Only
+   extract_element_fixed_width still needs it: its tag write is unbounded (NOT repaired), and decode
+   may call it at any offset, so the bound is position independent. *)
+Fixpoint digit_runs_ok (cap dk : N) (l : list N) : bool :=
   match l with
   | [] => true
-  | c :: r =>
-    if c =? SOH then run_ok tcap vcap 0 None r
-    else
-      let dk' := if is_digit c then dk + 1 else 0 in
-      let vk' := match vk with
-                 | Some k => Some (k + 1)
-                 | None => if c =? EQC then Some 0 else None
-                 end in
-      (dk' <? tcap) && match vk' with Some k => k <? vcap | None => true end && run_ok tcap vcap dk' vk' r
+  | c :: r => let dk' := if is_digit c then dk + 1 else 0 in (dk' <? cap) && digit_runs_ok cap dk' r
   end.
-
-(* the first three tokens go through extract_header's small buffers: an independent scanner *)
-Fixpoint digit_run (l : list N) : N * list N :=
-  match l with
-  | c :: r => if is_digit c then let '(n, r') := digit_run r in (n + 1, r') else (0, l)
-  | [] => (0, [])
-  end.
-(* length of the prefix before the first SOH, and what follows that SOH (None: no SOH) *)
-Fixpoint upto_soh (l : list N) : N * option (list N) :=
-  match l with
-  | c :: r => if c =? SOH then (0, Some r) else let '(n, x) := upto_soh r in (n + 1, x)
-  | [] => (0, None)
-  end.
-(* one token "digits = value SOH" at the head of l: are the digits fewer than tcap and the value
-   bytes fewer than vcap; the rest after the token when there is a complete one *)
-Definition tok_bounded (tcap vcap : N) (l : list N) : bool * option (list N) :=
-  let '(n, r) := digit_run l in
-  match r with
-  | c :: r' =>
-      if c =? EQC then let '(m, nx) := upto_soh r' in ((n <? tcap) && (m <? vcap), nx)
-      else (n <? tcap, None)
-  | [] => (n <? tcap, None)
-  end.
-Definition hdr_bounded (l : list N) : bool :=
-  let '(b1, n1) := tok_bounded MAX_MSGTYPE_FIELD_LEN MAX_FLD_LENGTH l in
-  b1 && match n1 with
-        | None => true
-        | Some l2 =>
-          let '(b2, n2) := tok_bounded MAX_MSGTYPE_FIELD_LEN MAX_MSGTYPE_FIELD_LEN l2 in
-          b2 && match n2 with
-                | None => true
-                | Some l3 => fst (tok_bounded MAX_MSGTYPE_FIELD_LEN MAX_MSGTYPE_FIELD_LEN l3)
-                end
-        end.
-
-(* the hypothesis of c03_decode_safe_partial:
-     - the input is a string of bytes shorter than 2^32 with at least the 7 trailing bytes
-       "10=ddd|" factory addresses unconditionally;
-     - BeginString / BodyLength / MsgType tokens: tag < 32 digits, values < 2048 / 32 / 32 bytes;
-     - everywhere: every run of digits < 2048 and every value (from the first '=' after an SOH
-       to the next SOH) < 2048 bytes. *)
-Definition tokens_bounded (bytes : list N) : bool :=
-  forallb (fun b => b <? 256) bytes && (7 <=? lenN bytes) && (lenN bytes <? 4294967296) &&
-  hdr_bounded bytes && run_ok MAX_FLD_LENGTH MAX_FLD_LENGTH 0 None bytes.
 
 (* ------------------------------------------------------------------ schema conditions *)
 Definition is_some {A} (o : option A) : bool := match o with Some _ => true | None => false end.
 (* every group trait of the table has its nested class (create_nested_group != 0) *)
 Definition closed_b (ts : list trait) (subs : list (N * gmeta)) : bool :=
   forallb (fun t => negb (t_group t) || is_some (find_sub subs (t_fnum t))) ts.
-(* a group class: closed, no trait statically present, recursively; with nh = true also: it has
-   a mandatory member (the condition under which decode_group cannot hang, F08) *)
-Fixpoint gm_ok (nh : bool) (g : gmeta) : bool :=
+(* a group class: closed, no trait statically present, recursively *)
+Fixpoint gm_ok (g : gmeta) : bool :=
   match g with
   | GM ts subs _ =>
-    closed_b ts subs && negb (existsb t_present ts) && (negb nh || is_some (find_missing ts)) &&
+    closed_b ts subs && negb (existsb t_present ts) &&
     (fix sl (ss : list (N * gmeta)) : bool :=
-       match ss with [] => true | (_, sg) :: r => gm_ok nh sg && sl r end) subs
+       match ss with [] => true | (_, sg) :: r => gm_ok sg && sl r end) subs
   end.
-Definition subs_ok (nh : bool) (ss : list (N * gmeta)) : bool := forallb (fun p => gm_ok nh (snd p)) ss.
+Definition subs_ok (ss : list (N * gmeta)) : bool := forallb (fun p => gm_ok (snd p)) ss.
 (* header / trailer / message body tables *)
-Definition part_ok (nh : bool) (g : gmeta) : bool := closed_b (g_traits g) (g_subs g) && subs_ok nh (g_subs g).
-Definition c03_wf_gen (nh : bool) (c : ctx) : bool :=
-  part_ok nh (c_header c) && part_ok nh (c_trailer c) && forallb (fun md => part_ok nh (md_meta md)) (c_msgs c).
-Definition c03_wf : ctx -> bool := c03_wf_gen false.
-(* no group class without a mandatory member *)
-Definition c03_nohang : ctx -> bool := c03_wf_gen true.
+Definition part_ok (g : gmeta) : bool := closed_b (g_traits g) (g_subs g) && subs_ok (g_subs g).
+Definition nonnil {A} (l : list A) : bool := match l with [] => false | _ => true end.
+(* well-formed schema: closed tables, and no message class with an empty MsgType *)
+Definition c03_wf (c : ctx) : bool :=
+  part_ok (c_header c) && part_ok (c_trailer c) &&
+  forallb (fun md => part_ok (md_meta md) && nonnil (md_type md)) (c_msgs c).
 (* no Length-typed field other than BodyLength in a header / trailer / body table: decode never
-   calls extract_element_fixed_width (whose tag buffer is not NUL-terminated) *)
+   calls extract_element_fixed_width (whose tag write is neither bounded nor NUL-terminated) *)
 Definition nolen_b (ts : list trait) : bool :=
   forallb (fun t => negb (t_ftype t =? ft_Length) || (t_fnum t =? Common_BodyLength)) ts.
 Definition c03_nodata (c : ctx) : bool :=
@@ -120,41 +69,59 @@ Definition c03_nodata (c : ctx) : bool :=
 
 (* ------------------------------------------------------------------ results *)
 Definition safe {A} (r : res A) : Prop := match r with Ok _ | Exc _ => True | _ => False end.
-(* no access outside a buffer and no exhausted fuel.  What remains possible under tokens_bounded
-   alone is named: Diverge (F08) and OOB site_uninit_tag (the fixed-width extractor leaves tag[]
-   unterminated, decode then reads stack bytes never written: C06's Length/data defect) *)
+(* What a run of the repaired decoder can still end in besides Ok / Exc: the two memory errors of
+   the Length/data path -- extract_element_fixed_width writes a digit run of >= 2048 digits through
+   tag[2048] (site_tag_write), and leaves tag[] unterminated, so that decode reads stack bytes never
+   written (site_uninit_tag).  No other OOB site, no Diverge, no Fuel. *)
 Definition classified {A} (r : res A) : Prop :=
   match r with
-  | Ok _ | Exc _ | Diverge => True
+  | Ok _ | Exc _ => True
+  | OOB s => s = site_tag_write \/ s = site_uninit_tag
+  | Diverge | Fuel => False
+  end.
+(* ... with bounded digit runs only the uninitialised read remains *)
+Definition classified_uninit {A} (r : res A) : Prop :=
+  match r with
+  | Ok _ | Exc _ => True
   | OOB s => s = site_uninit_tag
-  | Fuel => False
+  | Diverge | Fuel => False
   end.
 
 (* ------------------------------------------------------------------ fast_atoi<int> UB (F09)
-   retval = (retval << 3) + (retval << 1) + *str - '0'   on int, evaluated left to right.
-   UBSan (-fsanitize=shift,signed-integer-overflow, C++11) reports
-     - a left shift of a negative retval,
-     - retval << 3 whose mathematical value needs more than 32 bits (C++11: a shift INTO the sign
-       bit is allowed, i.e. values up to 2^32 - 1 are "representable in the unsigned type"),
-     - any of the three additions leaving [-2^31, 2^31).
-   Model: ub flag and the wrapped value actually computed. *)
+   Since /repo a8219b1:  after a leading '-':  retval = retval * 10 - (ch - '0')  for every further char,
+                         otherwise:            retval = retval * 10 + (ch - '0')
+   on int: no shift any more, a leading '-' is honoured.  There is still no digit test and no
+   range test: UBSan (-fsanitize=signed-integer-overflow) reports retval * 10 or the addition /
+   subtraction leaving [-2^31, 2^31) -- reachable only with 10 or more characters of digits
+   (2147483648, -2147483649, 99999999999) or fewer characters far from the digits.
+   Model: ub flag and the value computed. *)
 Local Open Scope Z_scope.
 Definition in_i32 (z : Z) : bool := (-2147483648 <=? z) && (z <? 2147483648).
-Definition atoi_ub_step (st : bool * Z) (ch : N) : bool * Z :=
+Definition atoi_ub_step (neg : bool) (st : bool * Z) (ch : N) : bool * Z :=
   let '(ub, r) := st in
   if ub then (true, r)
-  else if r <? 0 then (true, r)
-  else if 4294967296 <=? r * 8 then (true, r)
   else
-    let a := to_i32 (r * 8) in
-    let b := to_i32 (r * 2) in       (* r*2 < 2^32 follows *)
-    let s1 := a + b in
-    if negb (in_i32 s1) then (true, r)
-    else let s2 := s1 + schar ch in
-      if negb (in_i32 s2) then (true, r)
-      else let s3 := s2 - 48 in
-        if negb (in_i32 s3) then (true, r) else (false, s3).
-Definition atoi_ub (s : list N) : bool := fst (fold_left atoi_ub_step (cstr s) (false, 0)).
+    let m := r * 10 in
+    if negb (in_i32 m) then (true, r)
+    else let d := schar ch - 48 in
+         let s := if neg then m - d else m + d in
+         if in_i32 s then (false, s) else (true, r).
+Definition atoi_run (s : list N) : bool * Z :=
+  match cstr s with
+  | c :: rest => if (c =? 45)%N then fold_left (atoi_ub_step true) rest (false, 0)
+                 else fold_left (atoi_ub_step false) (c :: rest) (false, 0)
+  | [] => (false, 0)
+  end.
+Definition atoi_ub (s : list N) : bool := fst (atoi_run s).
+(* the value fast_atoi<int> returns when there is no UB *)
+Definition atoi_val (s : list N) : Z := snd (atoi_run s).
+(* canonical int texts: an optional '-' and at most 9 digits (c03_fast_atoi_safe_partial) *)
+Definition small_int_text (s : list N) : bool :=
+  match cstr s with
+  | c :: rest => if (c =? 45)%N then forallb is_digit rest && (lenN rest <=? 9)%N
+                 else forallb is_digit (c :: rest) && (lenN (c :: rest) <=? 9)%N
+  | [] => true
+  end.
 Local Open Scope N_scope.
 
 (* calc_chksum (F09 / D4): *reinterpret_cast<const uint32_t*>(from + ii), ii = 0, 4, .. < elen - elen % 8:
